@@ -11,6 +11,7 @@ import DDProofs.LexLayout
 import DDProofs.LexComments
 import DDProofs.LexNeeds
 import DDProofs.ParseBad
+import DDProofs.ParseOpen
 import DDProps.C05
 open Std
 namespace DD
@@ -257,5 +258,42 @@ example : ∃ t, parse exToks = some t ∧ parse (tokenize (spellWith exLayout e
   cases h : parse exToks with
   | none => exact absurd h (by decide)
   | some t => exact ⟨t, rfl, rfl, rfl⟩
+
+
+/-! ## the grammar side: more of the strings of a tree -/
+
+/-- C05 (precedence, wider printer).  Print a tree with the parentheses that precedence and left
+associativity require, ANY number `ex e` of redundant pairs around every sub-formula `e`
+(`((a))`), and binders `\A \E \S` left open — unparenthesised as right operand or operand of
+`~` — wherever only a closing token follows (`a & \E x: b | c => d`, `~ \S p/q: c <-> \E z: z`):
+the parser returns the tree.  (`C05_parse_redundant` is the case of at most one redundant pair
+and binders always parenthesised in operand position.) -/
+theorem C05_parse_printTop (ex : Ast → Nat) (t : Ast) (h : t.WF) : parse (printTop ex t) = some t :=
+  parse_printTop ex t h
+
+/-- … and as TEXT under every admissible layout: spellings, blanks, comments, parentheses and
+open binders all at once -/
+theorem C05_parse_text_open_any_spelling (ex : Ast → Nat) (t : Ast) (hwf : t.WF) (L : Layout)
+    (hL : layoutOk L (printTop ex t) = true) :
+    parse (tokenize (spellWith L (printTop ex t))) = some t := by
+  rw [tokenize_spellWith L _ hL, parse_printTop ex t hwf]
+
+/-- non-vacuity: open binders in right-operand and `~` position, nested, doubled parentheses -/
+def exOpen : Ast :=
+  .bin .or (.not (.quant true ["x", "y"] (.var "a")))
+    (.bin .and (.var "b") (.not (.subst [("p", "q")] (.bin .equiv (.var "c") (.quant false ["z"] (.var "z'"))))))
+
+example : exOpen.WF := by simp [exOpen, Ast.WF]
+example : spell (printTop (fun _ => 0) exOpen) =
+    "~ ( \\A x , y : a ) | b & ~ \\S p / q : c <-> \\E z : z' " := by decide
+example : spell (printMin exOpen) =
+    "~ ( \\A x , y : a ) | b & ~ ( \\S p / q : c <-> ( \\E z : z' ) ) " := by decide
+example : spell (printTop (fun e => if e matches .var _ then 2 else 0) exOpen) =
+    "~ ( \\A x , y : ( ( a ) ) ) | ( ( b ) ) & ~ \\S p / q : ( ( c ) ) <-> \\E z : ( ( z' ) ) " := by decide
+example : layoutOk { choice := fun i => i, gap := fun i => if i % 2 = 0 then [] else [.block "c".toList] }
+    (printTop (fun _ => 0) exOpen) = true := by decide
+example : spellWith { choice := fun i => i, gap := fun i => if i % 2 = 0 then [] else [.block "c".toList] }
+    (printTop (fun _ => 0) exOpen) =
+    "~((*c*)\\Ax(*c*),y(*c*):a(*c*))||(*c*)b/\\(*c*)~\\S(*c*)p/(*c*)q:(*c*)c<->(*c*)\\Ez(*c*):z'(*c*)" := by decide
 
 end DD
